@@ -178,8 +178,8 @@ def run_scenario(scen, keep_events=False):
             continue
         if run['via'] == 'cli':
             # the message on stderr must name the path and the line number
-            rawfile = x.get('err_file') or ''
-            if str(pl['line']) not in stderr or (rawfile not in stderr):
+            # (any spelling of the path will do: the file's base name and the line number must appear)
+            if not re.search(r'(?<![0-9])%d(?![0-9])' % pl['line'], stderr) or posixpath.basename(pl['file']) not in stderr:
                 res.violate('cli-message-lacks-location', '%s|%s' % (cls, cflag), 'CLI failed with %r which does not name %s line %d' % (stderr[:200], pl['file'], pl['line']))
         sig.append('ok')
     res.sig = '%s|%s|d%d|%s|%s' % (cls, pl['shape'], min(pl['depth'], 2), pl['where'], ','.join(sig))
